@@ -2,7 +2,8 @@
 `instantiate_builds T` — for a theorem `T : ∀ {sr : SR} … (h : SRContract sr) …, P`, add the theorems
 `T_ark : P[sqrtRatioArk]` and `T_min : P[sqrtRatioMin]` obtained by applying `T` to the two contract proofs
 (`Model.sarkar_contract`, `Model.sqrtRatioMin_contract`).  For a theorem over two routines `sr sr'` it adds
-`T_ark_min` (the cross-build statement).  Nothing is assumed: the new constants are ordinary kernel-checked theorems.
+`T_ark_min` (the cross-build statement).  `instantiate_builds T ark` / `instantiate_builds T min` adds only that build's instance
+(used for theorems about the translated code of one backend).  Nothing is assumed: the new constants are ordinary kernel-checked theorems.
 -/
 import Decaf.Lemmas.Sarkar
 import Decaf.Lemmas.TonelliShanks
@@ -13,14 +14,19 @@ private def countSR : Expr → Nat
   | .forallE _ t b _ => if t.isConstOf ``Model.SR then 1 + countSR b else 0
   | _ => 0
 
-elab "instantiate_builds " id:ident : command => do
+elab "instantiate_builds " id:ident only:(ident)? : command => do
   let n ← liftCoreM <| realizeGlobalConstNoOverloadWithInfo id
   let ci ← getConstInfo n
   let k := countSR ci.type
   let ark := (mkConst ``Model.sqrtRatioArk, mkConst ``Model.sarkar_contract)
   let mn := (mkConst ``Model.sqrtRatioMin, mkConst ``Model.sqrtRatioMin_contract)
   let variants : List (String × List (Expr × Expr)) ←
-    if k == 1 then pure [("_ark", [ark]), ("_min", [mn])]
+    if k == 1 then
+      match only.map (·.getId.toString) with
+      | some "ark" => pure [("_ark", [ark])]
+      | some "min" => pure [("_min", [mn])]
+      | some o => throwError "instantiate_builds: unknown build {o}"
+      | none => pure [("_ark", [ark]), ("_min", [mn])]
     else if k == 2 then pure [("_ark_min", [ark, mn])]
     else throwError "instantiate_builds: {n} has {k} leading SR binders"
   for (suffix, ps) in variants do
